@@ -637,6 +637,10 @@ def generate(r, max_atoms=14, reaction=False, stereo=.25, brackets=.3, cx=.15):
                 if r.random() < .4:
                     nat = sum(1 for _ in _atoms_of(s.split()[0]))
                     s = s[:-1] + f',^1:{r.randrange(nat)}|'
+        if ' |' not in s and r.random() < .3:   # radicals anywhere in the reaction, no groups
+            nat = sum(1 for _ in _atoms_of(s))
+            k = sorted(r.sample(range(nat), min(nat, r.randint(1, 2))))
+            s += ' |^1:' + ','.join(map(str, k)) + '|'
         return s
     s = _gen_mol(r, r.randint(1, max_atoms), stereo, brackets, dots=True)
     if r.random() < cx:
